@@ -362,6 +362,7 @@ def run_C12(res):
     impl = run_hx_par(reqs)
     model = run_driver_par(reqs)
     compare(res, "search::root::root", reqs, impl, model)
+    adversarial_tables_C12(res, ps, rnd)
     best = []
     for i, r in enumerate(impl):
         pr = parse_root(r)
@@ -540,10 +541,47 @@ def run_C19(res):
     res.count("positions", len(keep))
 
 
+def adversarial_tables_C12(res, ps, rnd):
+    """F12: a table entry stored under the key of a MATED successor (exact flag, deep, score 0). The engine never stores such an
+    entry itself (a mated node returns before the store), so it can only arise from a 64-bit key collision; the property however
+    quantifies over arbitrarily pre-filled tables."""
+    sample = ps[: (12 if res.tier == "quick" else 200)]
+    legal = run_hx_par(["moves " + p for p in sample])
+    items = [(p, m) for p, ml in zip(sample, legal) for m in parse_moves(ml)]
+    succ = successors(items)
+    sm = run_driver_par(["moves " + s for s in succ])
+    sc = run_hx_par(["check " + s for s in succ])
+    mated = {}
+    for (p, m), s, a, c in zip(items, succ, sm, sc):
+        if a == "-" and c.split()[0] == "1":
+            mated.setdefault(p, []).append((m, Pos(s).hash))
+    reqs, meta = [], []
+    for p, lst in mated.items():
+        tt = "1;" + ";".join(f"{h},{h},0,0,0,0,100,0" for _, h in lst)
+        reqs.append(f"root {p} {Pos(p).hash} {tt} depth {rnd.choice([1, 2])}")
+        meta.append((p, {fmt_mv(m) for m, _ in lst}))
+    impl = run_hx_par(reqs)
+    model = run_driver_par(reqs)
+    compare(res, "search::root::root (adversarial table)", reqs, impl, model)
+    for (p, mates), r, rq in zip(meta, impl, reqs):
+        res.case(rq, True)
+        res.count("adversarial_table_runs")
+        pr = parse_root(r)
+        if pr["panic"] or pr["best"] is None:
+            res.fail("search failed on a mate-in-one position", request=rq[:300], observed=r[:80])
+        elif pr["best"] not in mates or pr["infos"][-1]["score"] != MATE - 1:
+            res.fail("a mate in one exists but is not played / not scored as mate", request=rq[:400], observed=(pr["best_uci"], pr["infos"][-1]["score"]),
+                     adversarial_entry_under_mated_child_key=True)
+
+
+def match_F12(f):
+    return f.get("adversarial_entry_under_mated_child_key") is True
+
+
 PROPS = {
     "C03": {"run": run_C03, "matchers": {"F2": match_F2}},
     "C11": {"run": run_C11, "matchers": {"F6": match_F6}},
-    "C12": {"run": run_C12},
+    "C12": {"run": run_C12, "matchers": {"F12": match_F12}},
     "C13": {"run": run_C13},
     "C14": {"run": run_C14, "matchers": {"F10": match_F10}},
     "C19": {"run": run_C19},
